@@ -200,13 +200,23 @@ class World:
         return self.task is not None and not self.task.done()
 
     def resume(self, extra: float = 0.0) -> None:
-        """End the scheduler's sleep (plus extra virtual seconds) and run one
-        main-loop iteration."""
+        """End the scheduler's end-of-iteration sleep and run one main-loop
+        iteration. Virtual time does NOT advance on its own (the sleep timer
+        is fired early): time only moves through explicit `jump` events
+        (`extra` seconds here), so a self-loop tick really is a no-op and
+        event prefixes replay identically however many idle ticks the
+        original execution contained."""
         if not self.running:
             return
-        when = self.loop.next_timer()
-        if when is not None and when > CLOCK.now:
-            CLOCK.now = when
+        import heapq
+        loop = self.loop
+        while loop._scheduled and loop._scheduled[0]._cancelled:
+            h = heapq.heappop(loop._scheduled)
+            h._scheduled = False
+        if loop._scheduled:
+            h = heapq.heappop(loop._scheduled)
+            h._scheduled = False
+            loop._ready.append(h)
         CLOCK.now += extra
         self._run_until_boundary()
 
